@@ -39,6 +39,9 @@ type spec struct {
 	// DemoFailFirstSync: the first sync after reopening fails (meta file system full) after litestream
 	// initialised; the application then checkpoints PASSIVE again; Snapshot
 	DemoFailFirstSync bool `json:"demo_fail_first_sync,omitempty"`
+	// DemoLeaveKB > 0: the meta file system is left with that many KiB free instead of none, so a
+	// chunked catch-up (small MaxSyncWALBytes) writes its first chunk(s) and then fails
+	DemoLeaveKB int `json:"demo_leave_kb,omitempty"`
 }
 
 func init() {
@@ -73,6 +76,10 @@ func cases(run *vf.Run) ([]json.RawMessage, error) {
 	for i, m := range []string{"none", "PASSIVE"} {
 		out = append(out, vf.Spec(spec{Seed: 635 + int64(i), Levels: 1, Demo: "snapshot-after-offline-backfill", DemoMode: m, DemoNewObject: i == 1, DemoFailFirstSync: true,
 			Cfg: hist.Config{PageSize: []int{4096, 1024}[i], MinCheckpointPageN: 1000, TruncatePageN: 0, MaxSyncWALFrames: 0}}))
+	}
+	for i, kb := range []int{8, 12, 16, 24} {
+		out = append(out, vf.Spec(spec{Seed: 645 + int64(i), Levels: 1, Demo: "snapshot-after-offline-backfill", DemoMode: "none", DemoNewObject: i%2 == 1, DemoFailFirstSync: true, DemoLeaveKB: kb,
+			Cfg: hist.Config{PageSize: 4096, MinCheckpointPageN: 1000, TruncatePageN: 0, MaxSyncWALFrames: 2}}))
 	}
 	backlogs := []int{140, 300}
 	if run.Tier == "thorough" {
@@ -312,15 +319,30 @@ func runCase(run *vf.Run, raw json.RawMessage, dir string) *vf.Result {
 			// now pins the WAL at the current end) but cannot stage its LTX file: disk full.
 			// The application's next PASSIVE checkpoint may then backfill every frame up to
 			// that read mark, i.e. frames litestream has not copied yet.
-			if err := e.MetaFull(true); err != nil {
+			if s.DemoLeaveKB > 0 {
+				// room for the first chunk(s) of a chunked catch-up only
+				if err := e.MetaNearlyFull(int64(s.DemoLeaveKB) << 10); err != nil {
+					return herr(err)
+				}
+			} else if err := e.MetaFull(true); err != nil {
 				return herr(err)
 			}
 			serr := e.LS.Sync(ctx)
+			if p, perr := e.LS.Pos(); perr == nil {
+				e.Logf("position after the failing catch-up: TXID %d", p.TXID)
+			}
 			e.Logf("first sync after reopen with the meta file system full: err=%v", serr)
 			if err := e.MetaFull(false); err != nil {
 				return herr(err)
 			}
 			e.AppCheckpoint("PASSIVE")
+		}
+		if s.DemoFailFirstSync {
+			// upload whatever level-0 files the partial catch-up produced, so that a snapshot
+			// published at that position can be compared with the level-0 image
+			if err := e.LS.Replica.Sync(ctx); err != nil {
+				e.Logf("Replica.Sync before the snapshot err=%v", err)
+			}
 		}
 		info, err := e.LS.Snapshot(ctx)
 		e.Logf("Snapshot right after reopen (application checkpointed %s while litestream was closed) err=%v info=%+v", s.DemoMode, err, info)
